@@ -86,7 +86,7 @@ REG['C17'] = dict(
     'set of (kind, data subset) simulated); non-trivial = at least one state '
     'dump checked variable by variable')
 REG['C18'] = dict(
-    oracle='c18', profiles=[('query', 1, None)],
+    oracle='c18', profiles=[('query', 4, None), ('dyn', 1, None)],
     quick=8000, thorough=200000,
     thorough_cfg={'exhaustive_subsets': True},
     vacuity=['snapshots', 'exports', 'snapshot_on_instant', 'snapshot_between',
